@@ -134,65 +134,72 @@ theorem findMaxBy_spec (f : Int → Int) (s : List Int) :
     · exact ⟨0, by simp, atIdx_zero _ _ _ h1.symm, ha, by simp⟩
     · exact ⟨i, hi, h1, ha, h3⟩
 
-/-- `FindMinByKey`, for every slice of maps (each in any iteration order) and every key: never a
-panic; an error only for an empty slice or when the first map lacks the key (value = zero value);
-otherwise the minimal one of the values stored under the key. -/
+/-- `FindMinByKey`, for every slice of maps (each in any iteration order) and every key: never a panic; an error
+(with the zero value) exactly when no map of the slice holds the key; otherwise the minimal one of the values stored
+under the key. -/
 theorem findMinByKey_spec (ms : List GoMap) (k : Int) :
     Spec.C13.IsMinByKey ms k (Model.C13.FindMinByKey ms k).1 (Model.C13.FindMinByKey ms k).2 := by
   unfold Spec.C13.IsMinByKey Model.C13.FindMinByKey
   cases ms with
-  | nil => simp
+  | nil => simp [Spec.C13.keyVals]
   | cons m0 r =>
-    simp only [mapGet_eq_lookup]
-    cases h0 : Spec.C13.lookup k m0 with
-    | none =>
-      refine ⟨by simp, fun _ => Or.inr ⟨m0, List.mem_cons_self, h0⟩, by simp⟩
-    | some v0 =>
-      refine ⟨by simp, by simp, fun _ => Or.inr ?_⟩
-      simp only [minByKeyLoop_eq]
-      have hkv : Spec.C13.keyVals k (m0 :: r) = v0 :: Spec.C13.keyVals k r := by
-        simp [Spec.C13.keyVals, h0]
-      rw [hkv]
-      obtain ⟨h1, _, h3⟩ := minLoop_spec (v0 :: Spec.C13.keyVals k r) v0
-      refine ⟨?_, h3⟩
-      rcases h1 with h | h
-      · rw [h]; exact List.mem_cons_self
-      · exact h
+    simp only [minByKeyLoop_eq]
+    cases hkv : Spec.C13.keyVals k (m0 :: r) with
+    | nil => simp
+    | cons v vs =>
+      simp only
+      obtain ⟨h1, _, h3⟩ := minLoop_spec vs v
+      refine ⟨by simp, by simp, fun _ => ⟨?_, ?_⟩⟩
+      · rcases h1 with h | h
+        · rw [h]; exact List.mem_cons_self
+        · exact List.mem_cons_of_mem _ h
+      · intro x hx
+        rcases List.mem_cons.mp hx with rfl | hx
+        · exact (minLoop_spec vs x).2.1
+        · exact h3 x hx
 
 theorem findMaxByKey_spec (ms : List GoMap) (k : Int) :
     Spec.C13.IsMaxByKey ms k (Model.C13.FindMaxByKey ms k).1 (Model.C13.FindMaxByKey ms k).2 := by
   unfold Spec.C13.IsMaxByKey Model.C13.FindMaxByKey
   cases ms with
-  | nil => simp
+  | nil => simp [Spec.C13.keyVals]
   | cons m0 r =>
-    simp only [mapGet_eq_lookup]
-    cases h0 : Spec.C13.lookup k m0 with
-    | none =>
-      refine ⟨by simp, fun _ => Or.inr ⟨m0, List.mem_cons_self, h0⟩, by simp⟩
-    | some v0 =>
-      refine ⟨by simp, by simp, fun _ => Or.inr ?_⟩
-      simp only [maxByKeyLoop_eq]
-      have hkv : Spec.C13.keyVals k (m0 :: r) = v0 :: Spec.C13.keyVals k r := by
-        simp [Spec.C13.keyVals, h0]
-      rw [hkv]
-      obtain ⟨h1, _, h3⟩ := maxLoop_spec (v0 :: Spec.C13.keyVals k r) v0
-      refine ⟨?_, h3⟩
-      rcases h1 with h | h
-      · rw [h]; exact List.mem_cons_self
-      · exact h
+    simp only [maxByKeyLoop_eq]
+    cases hkv : Spec.C13.keyVals k (m0 :: r) with
+    | nil => simp
+    | cons v vs =>
+      simp only
+      obtain ⟨h1, h2, h3⟩ := maxLoop_spec vs v
+      refine ⟨by simp, by simp, fun _ => ⟨?_, ?_⟩⟩
+      · rcases h1 with h | h
+        · rw [h]; exact List.mem_cons_self
+        · exact List.mem_cons_of_mem _ h
+      · intro x hx
+        rcases List.mem_cons.mp hx with rfl | hx
+        · exact h2
+        · exact h3 x hx
 
-/-- When every map holds the key and the slice is non-empty, no error is reported (so the extremum
-really is returned). -/
-theorem findMinByKey_no_error (ms : List GoMap) (k : Int) (hne : ms ≠ [])
-    (hall : ∀ m ∈ ms, Spec.C13.lookup k m ≠ none) : (Model.C13.FindMinByKey ms k).1 = false := by
-  have h := (findMinByKey_spec ms k).2.1
+/-- As soon as SOME map holds the key no error is reported (so the extremum really is returned) — in particular when
+the first map lacks it (finding F44). -/
+theorem findMinByKey_no_error (ms : List GoMap) (k : Int)
+    (hsome : ∃ m ∈ ms, Spec.C13.lookup k m ≠ none) : (Model.C13.FindMinByKey ms k).1 = false := by
+  have h := (findMinByKey_spec ms k).1
   cases hb : (Model.C13.FindMinByKey ms k).1 with
   | false => rfl
   | true =>
-    rcases h hb with h | ⟨m, hm, hl⟩
-    · exact absurd h hne
-    · exact absurd hl (hall m hm)
+    have hnil := h.mp hb
+    obtain ⟨m, hm, hl⟩ := hsome
+    cases hv : Spec.C13.lookup k m with
+    | none => exact absurd hv hl
+    | some v =>
+      have : v ∈ Spec.C13.keyVals k ms := by
+        simp only [Spec.C13.keyVals, List.mem_filterMap]
+        exact ⟨m, hm, hv⟩
+      rw [hnil] at this
+      cases this
 
+example : Model.C13.FindMinByKey [[(1, 5)], [(0, 7)], [(0, -2)]] 0 = (false, -2) := by decide
+example : Model.C13.FindMinByKey [[(1, 5)], [(2, 7)]] 0 = (true, 0) := by decide
 example : Model.C13.FindMinByKey [[(0, 5), (1, 1)], [(1, 9)], [(0, -2)]] 0 = (false, -2) := by decide
 example : Model.C13.FindMinBy [3, -3, 2, -2] (fun x => x * x) = 2 := by decide
 example : Model.C13.FindMaxBy [3, -3, 2] (fun x => x * x) = 3 := by decide
@@ -578,6 +585,7 @@ example : ¬ Spec.C13.IsMax [-3, -1] 0 := by decide
 example : ¬ Spec.C13.IsMinBy (Spec.C13.key 5) [3, -3] (-3) := by decide
 example : Spec.C13.IsMinBy (Spec.C13.key 5) [3, -3] 3 := by decide
 example : ¬ Spec.C13.IsMinByKey [[(0, 1)], [(0, -2)]] 0 true 0 := by decide
+example : ¬ Spec.C13.IsMinByKey [[(1, 1)], [(0, 7)]] 0 true 0 := by decide   -- F44: the first map lacks the key
 example : ¬ Spec.C13.Nth [] 0 .panic := by decide
 example : ¬ Spec.C13.Nth [1, 2] (-1) (.ok 1) := by decide
 example : ¬ Spec.C13.Mean [-1, -2] (.ok (-2)) := by decide
